@@ -6,16 +6,30 @@ from props import netprops, cliplan
 from props.c15 import tok as val_tokens
 
 LEVEL = "other"
-RULE = ("the real gamedig_cli binary (rebuilt from /repo on every run) against in-process loopback UDP servers replaying SPEC-generated "
+RULE = ("(1) PLAN: the real gamedig_cli binary built with the verification hook prints the plan of an invocation (game looked up, literal or resolved host, "
+        "port, timeout and extra settings, output mode and format) instead of querying; generated invocations — every game id of the table, unknown ids "
+        "(non-ASCII, blank, very long, not UTF-8), IPv4 / IPv6 literals in every notation and near-literals, host names that resolve and that do not, every "
+        "typed flag at its boundary values, every presence pattern of the two flattened flag groups, every mode x format — go to the binary and to the model "
+        "of main (driver entry `cli-plan`, Proto/CliPlan.lean) and must give the same plan or the same way out; oracle on the binary alone: exit rules of the "
+        "property and the hand-over of every flag value. (2) MIRRORS: the model's IP-literal parser, hex / base64 codecs, JSON printer (compact, pretty) and JSON "
+        "reader against std / hex / base64 / serde_json in the harness on generated and damaged inputs. (3) WRITERS: the real binary's output_result_* on values "
+        "of every shape (print hook): JSON / pretty JSON / XML byte for byte = the model's, BSON-hex / BSON-base64 decoded by the model's decoders = Python's, the "
+        "BSON inside = the value. (4) END TO END: the shipped binary (no hook) against in-process loopback UDP servers replaying SPEC-generated "
         "exchanges of Valve games (names, maps, rule keys and values with markup, control and non-ASCII characters; rule keys that are not "
-        "XML names are injected) x 2 output modes x 6 formats; stdout must be one well-formed document: JSON re-parsed and compared with the "
-        "library's own response (obtained in-process through the harness on the same exchange), XML compared byte for byte with the Lean "
-        "model's rendering of that JSON value (and parsed), BSON (hex / base64) decoded by an independent walker and compared; exit status 0. "
+        "XML names are injected) x 2 output modes x 6 formats; stdout must be one well-formed document: JSON read by Python AND by the model's reader and compared "
+        "with the library's own response (obtained in-process through the harness on the same exchange), reprinted by the model's printer byte for byte; generic "
+        "mode = the C15 accessor tables evaluated by the model on the protocol-specific value, byte for byte; XML compared byte for byte with the Lean "
+        "model's rendering of that JSON value (and parsed), BSON (hex / base64) decoded by the model's decoders and by an independent walker and compared; exit status 0. "
         "Invalid invocations of each kind (unknown game, unresolvable host, silent server, bad flag values) must exit non-zero with a message "
-        "and no panic. Distinct = distinct (case, mode, format) outputs.")
-ASSUMPTIONS = ["serde_json, quick-xml's writer, bson, base64, hex, clap and the system resolver are external: sampled here, not proved",
-               "the Debug format is only checked for being printed (it has no grammar to validate)"]
-TRUSTED = ["Lean model of the JSON→XML converter and of main's control flow (theorems in Props/C19.lean), tied to the binary by byte-exact comparison"]
+        "and no panic. Distinct = distinct outputs.")
+ASSUMPTIONS = ["clap's tokenisation of argv, the system resolver, serde's derive output, serde_json / quick-xml / bson succeeding or failing, and the Debug text are parameters "
+               "of the model (its theorems hold for all their behaviours); the per-value parsers of the flags, std's IpAddr parser and Display, hex, base64 and "
+               "serde_json's two formatters are mirrored in Lean and compared with the real ones on every run",
+               "the Debug format is only checked for being printed (it has no grammar to validate)",
+               "BSON's binary layout (bson::to_vec) is read back by an independent Python walker, not modelled"]
+TRUSTED = ["Lean model of main (Proto/CliPlan.lean), of the JSON documents and their reader (Proto/CliJson.lean), of hex / base64 (Proto/CliCodec.lean) and of the JSON→XML "
+           "converter (Proto/Cli.lean); theorems in Props/C19.lean, C19_cli.lean, C14_cli.lean, C18_cli.lean; tied to the binary by the plan hook, the print hook and "
+           "byte-exact comparison of the documents"]
 
 CLI_TARGET = os.path.join(vlib.WORK, "cli-target")
 CLI = os.path.join(CLI_TARGET, "debug", "gamedig_cli")
@@ -720,5 +734,6 @@ def run(rep, tier, seed, replay=None):
         if b"panicked at" in err or rc in (0, 101) or not err.strip():
             rep.oracle_failures.append(("cli-bad-exit:" + name, f"exit {rc}, stderr {err[-200:]!r}", "gamedig_cli " + " ".join(args), ""))
     silent.close()
-    rep.extra_cov["explanation"] = ("partial: XML converter (names, nesting, escaping) and main's exit logic are Lean theorems; the serialisers and the process are "
-                                    "exercised by running the real binary and reading its output back with independent readers")
+    rep.extra_cov["explanation"] = ("main from the flag values to the process outcome, the JSON documents with their reader, hex / base64 and the XML converter are Lean "
+                                    "models with theorems (plan, every way out, no panic, the document decodes to the value, generic = common view); serde's derive "
+                                    "output, the serialiser crates' success, BSON's layout, the resolver and the process itself are exercised by running the real binary")
